@@ -336,6 +336,54 @@ example : (runSys exChain genesis (exOps.take 3)).disk.storeH = 5 ∧ (runSys ex
 section Mempool
 open Tmv.MempoolLock
 
+/-- **no_check_in_commit_window** (main statement, general ABCI connection). Mempool v0 with
+`BlockExecutor.Commit` over a connection on which a `CheckTxAsync` call may block for any time
+(holding the read lock) and is then answered while blocking (local client) or returns with the
+request queued and is answered at any later time (socket / gRPC clients; the recheck requests of
+`Update` likewise): for every pool size and every interleaving, from the moment the commit
+request is on the consensus connection until the last recheck request of that block has been
+issued, no `CheckTx` of a new transaction is in flight — neither blocking nor queued-unanswered —
+and none can start. -/
+theorem no_check_in_commit_window (p : Nat) (evs : List Ev) (s : MS)
+    (h : run .v0g { pool := p } evs = some s) (hw : inCommitWindow s = true) :
+    checkInFlightG s = false ∧ ∀ i, (step .v0g s (.prelude i)).isNone := by
+  have hi : IG s := (IG.init p).run h
+  have hwr := hi.cw (window_holds hw)
+  have hr := hi.wr hwr
+  have hcnt : gateCount s.chk = 0 := by rw [← hi.cnt, hr]
+  refine ⟨?_, ?_⟩
+  · simp only [checkInFlightG, List.any_eq_false]
+    intro x hx
+    have h1 := any_gate_of_count s.chk hcnt
+    simp only [List.any_eq_false] at h1
+    have h2 := hi.cq hw x hx
+    have h3 := h1 x hx
+    simp only [Bool.or_eq_true, not_or]
+    exact ⟨h3, by simpa using h2⟩
+  · intro i
+    simp [MempoolLock.step, hwr]
+
+/-- the local-client discipline is one schedule of the general one: every `v0` run is a `v0g` run,
+so the main statement specialises to it (corollary; `no_check_in_commit_window_v0` below is the
+same fact proved directly, with the window extended to outstanding rechecks, of which the local
+client has none). -/
+theorem no_check_in_commit_window_local (p : Nat) (evs : List Ev) (s : MS)
+    (h : run .v0 { pool := p } evs = some s) (hw : inCommitWindow s = true) :
+    checkInFlightG s = false ∧ ∀ i, (step .v0 s (.prelude i)).isNone := by
+  have hg := v0_run_in_v0g (s := { pool := p }) ⟨by simp, rfl⟩ h
+  obtain ⟨h1, h2⟩ := no_check_in_commit_window p evs s hg hw
+  refine ⟨h1, fun i => ?_⟩
+  have := h2 i
+  simpa [MempoolLock.step] using this
+
+/-- the general window is reachable with a check that returned unanswered before the commit
+started: the flush waits for it -/
+example : ∃ s, run .v0g {} [.spawnCheck 1, .prelude 1, .retCheck 1, .spawnCommit, .lockCommit] = some s
+    ∧ step .v0g s .relFlush = none ∧ checkInFlightG s = true := ⟨_, rfl, by decide, by decide⟩
+example : ∃ s, run .v0g { pool := 2 }
+    [.spawnCheck 1, .prelude 1, .retCheck 1, .spawnCommit, .lockCommit, .relCheck 1, .relFlush, .relCommit, .retRecheck] = some s
+    ∧ inCommitWindow s = true ∧ s.rechecks = [0] := ⟨_, rfl, by decide, by decide⟩
+
 /-- **no_check_in_commit_window_v0.** Mempool v0 with `BlockExecutor.Commit`: for every pool size and
 every interleaving of checker and committer steps, from the moment the commit request is on the
 consensus connection until the last recheck of that block has been forwarded, no `CheckTx` of a new
